@@ -18,6 +18,7 @@ def handle (j : Json) : Except String Json := do
     return Json.mkObj [("text", e.gen)]
   | "fusion" => Driver.fusion j
   | "da" => Driver.da j
+  | "hoist" => Driver.hoist j
   | _ => throw s!"unknown op {op}"
 
 partial def loop (h : IO.FS.Stream) (out : IO.FS.Stream) : IO Unit := do
